@@ -9,11 +9,16 @@ PROP = dict(
              corpus="corpus/c06", max_len=64,
              seconds_quick=12, seconds_thorough=300, workers_quick=4, workers_thorough=8, replay_ext="fuzz"),
     ],
-    rule=("A case is (width, height, alpha, channel width, pixel style+seed) for the save side and (container variant, sub-variant "
+    rule=("A case is (width, height, alpha, channel width, pixel style+seed) for the save side - pixel styles: random, gradients, all zero, "
+          "all max, many 0/max samples, and three with vertical redundancy (rows repeating the row above exactly or except for 1-2 samples, "
+          "flat background with sparse marks, identical rows with marks at the right/left edge) - plus, for `derived`, 1..3 image-producing "
+          "operations applied before saving (copy/move assignment into a live image of another size, alpha flag and channel width or into a "
+          "default-constructed one, copy/move construction, set_channel_width, set_has_alpha, reverse_horizontal/vertical; every operation "
+          "x (alpha, channel width) x (alpha, channel width) and every ordered pair of operations enumerated), and (container variant, sub-variant "
           "number, width, height, pixel style+seed) for the load side, enumerated over all widths 1..64 / all sub-variants at small "
           "sizes and drawn at random (rapidcheck) for sizes up to 64x64; each truncation case additionally loads every prefix of the "
           "file (files <= 1 KiB quick / 2 KiB thorough) or all header prefixes, +-1 around each row start and the last 16 bytes. "
-          "Non-trivial: width mod 4 != 0, or alpha, or channel width > 8, or a container variant phosg's own save() never writes "
+          "Non-trivial: width mod 4 != 0, or alpha, or channel width > 8, or an image produced by an operation (derived), or a container variant phosg's own save() never writes "
           "(grayscale, reordered/padded headers, other maxval, V4/V5/56-byte BMP headers, permuted masks, top-down rows, data-offset gap). "
           "Distinct = distinct case encodings (hash); fuzz inputs are distinct by (variant, sub-variant, size, cut)."),
     assumptions=[
@@ -23,6 +28,8 @@ PROP = dict(
         "P6/P5 headers end in a single space, tab or newline; '#' comment lines and a carriage return as the final header byte are not generated",
         "BI_BITFIELDS masks live inside a 56/108/124-byte info header (a 40-byte header followed by separate masks is not generated)",
         "malformed headers that are not prefixes of valid files are outside the property",
+        "an image produced by copy/move/set_channel_width/set_has_alpha/reverse is described by its accessors and raw sample buffer after the "
+        "operations (what the operations do to the pixels is not asserted here); it must then save and reload exactly like a freshly drawn image",
         "leak detection = sanitizer allocator byte accounting around every load (confirmed by repetition) plus a LeakSanitizer pass after each truncation case",
     ],
     min_evaluations_quick=20000,
